@@ -37,7 +37,7 @@ func init() {
 		Run: runC05, Workers: 16, GOMAXPROCS: 4,
 		QuickTimeout: 8 * time.Minute, ThoroughTimeout: 40 * time.Minute,
 		QuickFloor: 200, ThoroughFloor: 4000,
-		RequiredCounters: []string{"supersession_claims_checked", "quiescent_survivor_judgements", "survivor_present", "survivor_absent", "concurrent_cases", "RoutineExecDone"},
+		RequiredCounters: []string{"supersession_claims_checked", "quiescent_survivor_judgements", "survivor_present", "survivor_absent", "concurrent_cases", "stored_state_checks", "setcontext_done_context_calls", "RoutineExecDone"},
 		Rule: "each case runs 3-5 concurrent drivers (one context changer, state/routine setters, restarters) or one sequential driver against instances that exit by themselves, fail (with retry timers) or run until cancelled; after every superseding call returns, every instance that entered before the call began must have a cancelled context; " +
 			"at quiescence the set of live instances is judged against the last context operation, the stored state (GetState) and the context lineage tag; non-trivial = at least two API calls overlapped in time or a call overlapped an exit's bookkeeping; distinct = distinct event orders",
 		Assumptions: rtAssume,
@@ -46,7 +46,7 @@ func init() {
 		Run: runC14, Workers: 16, GOMAXPROCS: 4,
 		QuickTimeout: 8 * time.Minute, ThoroughTimeout: 40 * time.Minute,
 		QuickFloor: 60, ThoroughFloor: 1500,
-		RequiredCounters: []string{"settle_points_judged", "forbidden_rerun_windows", "required_reruns_seen", "waitexited_returns_judged", "exit_callbacks_checked", "backoff_resets_seen", "gated_timer_templates"},
+		RequiredCounters: []string{"settle_points_judged", "forbidden_rerun_windows", "required_reruns_seen", "waitexited_returns_judged", "exit_callbacks_checked", "backoff_resets_seen", "gated_timer_templates", "restart_in_backoff_templates"},
 		Rule: "each case is a sequential history of 14-64 operations over SetRoutine/SetState/SetContext(same,new,nil; restart on/off)/RestartRoutine/ClearContext with scripted instance outcomes (success, unique error, run until cancelled), with and without a recording 1 ms backoff; after every operation the case settles " +
 			"(timers fired, goroutines quiescent) and the number of instance entries is compared with what the documented machine requires or forbids; WaitExited is issued at random points with both returnIfNotRunning values; " +
 			"non-trivial = the history contains at least one success, one failure and one restart-class call; distinct = distinct operation/outcome sequences",
